@@ -22,3 +22,102 @@ def runner(tier, seed):
 
 PARTS = {"pmf": {"runner": runner, "replay": rcrun.replay_rc}}
 REQUIRED_STRATA = {"all": ["pmf:nd.converged", "pmf:nd.has_open_dim", "pmf:nd.dim3", "pmf:conv.periodic00", "pmf:conv.periodic11", "pmf:oned.periodic"]}
+
+
+# --------------------------------------------------------------------------------------------
+# through the ABF bias: the divergence ABF keeps up to date sample by sample (update_div_neighbors from its update()) gives the same
+# free-energy surface as a fresh instance that reads the final gradients and counts (set_div over the whole grid)
+import os
+from hypothesis import strategies as st
+from lib import cvz
+from lib.gen import fl, rnd
+from lib.core import Outcome, run_case, pct
+
+
+@st.composite
+def spec_abf_fly(draw, tier):
+    nd = draw(st.sampled_from([2, 2, 2, 3]))
+    nb = [draw(st.integers(3, 5 if nd == 3 else 7)) for _ in range(nd)]
+    per = [draw(st.integers(0, 3)) == 0 for _ in range(nd)]
+    T = draw(st.integers(4, 40))
+    pool = [[draw(st.integers(0, nb[i] - 1)) for i in range(nd)] for _ in range(draw(st.integers(1, 6)))]
+    steps = []
+    for _ in range(T):
+        b = draw(st.sampled_from(pool)) if draw(st.integers(0, 3)) else [draw(st.integers(-1, nb[i])) for i in range(nd)]
+        steps.append({"b": b, "f": [rnd(draw(fl(-6, 6)), 2) for _ in range(nd)]})
+    return {"nd": nd, "nb": nb, "per": per, "steps": steps, "full": draw(st.integers(1, 6)), "min": draw(st.sampled_from([None, 0, 1, 2, 3])),
+            "order_rev": draw(st.booleans())}
+
+
+def abf_fly_cfg(spec, prefix_in=None):
+    cfg = []
+    for i in range(spec["nd"]):
+        cfg.append(cvz.zvar("z%d" % i, i + 1, 0.0, 0.5 * spec["nb"][i], 0.5, periodic=spec["per"][i]))
+    L = ["abf {", "  name a", "  colvars " + " ".join("z%d" % i for i in range(spec["nd"])), "  fullSamples %d" % spec["full"], "  integrate on",
+         "  integrateTol 1e-11", "  integrateMaxIterations 20000", "  applyBias off"]
+    if spec["min"] is not None and spec["min"] < spec["full"]:
+        L.append("  minSamples %d" % spec["min"])
+    if prefix_in:
+        L.append("  inputPrefix %s" % prefix_in)
+    L.append("}")
+    return "\n".join(cfg) + "\n" + "\n".join(L) + "\n"
+
+
+def read_pmf(path):
+    try:
+        return [float(l.split()[-1]) for l in open(path) if l.strip() and not l.startswith("#")]
+    except (OSError, ValueError):
+        return None
+
+
+def check_abf_fly(spec, ctx):
+    nd = spec["nd"]
+    d = os.path.join(ctx["workdir"], "c16f_%d" % os.getpid())
+    os.makedirs(d, exist_ok=True)
+    for f in os.listdir(d):
+        os.unlink(os.path.join(d, f))
+    nat = nd + 1
+    L = cvz.header(nat, 1) + ["outprefix fly", "config <<END\n%s\nEND" % abf_fly_cfg(spec)]
+    seq = list(reversed(spec["steps"])) if spec["order_rev"] else spec["steps"]
+    for s in [seq[0]] + seq:          # the first step of a run collects nothing
+        L += [cvz.pos_line_z([0.25 + 0.5 * b for b in s["b"]], nat), cvz.fsys_line_z(s["f"], nat), "step"]
+    L.append("post_run")
+    case = "\n".join(L) + "\n"
+    r = run_case(case, cwd=d)
+    if r.crashed:
+        return Outcome(False, msg="crash %s" % r.stderr[-400:], sig="crash", case_text=case)
+    if r.of("config")[0]["rc"] != 0:
+        return Outcome(False, msg="configuration rejected: %s" % r.of("config")[0]["errs"], sig="gen_invalid", case_text=case)
+    if any(s["errbits"] for s in r.of("step")):
+        return Outcome(False, msg="step error %s" % [s["errs"] for s in r.of("step") if s["errbits"]][:1], sig="step_error", case_text=case)
+    L2 = cvz.header(nat, 1) + ["outprefix batch", "config <<END\n%s\nEND" % abf_fly_cfg(spec, prefix_in="fly"), "post_run"]
+    case2 = "\n".join(L2) + "\n"
+    r2 = run_case(case2, cwd=d)
+    full = case + "\n# ---- second instance: reads fly.grad / fly.count ----\n" + case2
+    if r2.crashed:
+        return Outcome(False, msg="crash in the instance that reads the data back %s" % r2.stderr[-400:], sig="crash", case_text=full)
+    if r2.of("config")[0]["rc"] != 0:
+        return Outcome(False, msg="the written gradients/counts are rejected as input: %s" % r2.of("config")[0]["errs"], sig="abf_reload", case_text=full)
+    a, b = read_pmf(os.path.join(d, "fly.pmf")), read_pmf(os.path.join(d, "batch.pmf"))
+    if a is None or b is None or len(a) != len(b):
+        return Outcome(False, msg="PMF files missing or of different size (%s, %s)" % (a and len(a), b and len(b)), sig="abf_pmf_files", case_text=full)
+    scale = max(1.0, max(abs(v) for v in a + b))
+    worst = max(abs(x - y) for x, y in zip(a, b))
+    sampled = {}
+    for s in seq:
+        if all(0 <= s["b"][i] < spec["nb"][i] for i in range(nd)):
+            sampled[tuple(s["b"])] = sampled.get(tuple(s["b"]), 0) + 1
+    if worst > 1e-6 * scale:
+        return Outcome(False, msg="free-energy surface kept up to date during the run differs from the one integrated from the final gradients and counts "
+                       "by %r (scale %r): %d-D grid %s, periodic %s, %d sampled bins, fullSamples %d, minSamples %s" % (
+                           worst, scale, nd, spec["nb"], spec["per"], len(sampled), spec["full"], spec["min"]), sig="abf_pmf_onthefly", case_text=full)
+    low = sum(1 for c in sampled.values() if c <= (spec["min"] if spec["min"] is not None and spec["min"] < spec["full"] else spec["full"] // 2))
+    return Outcome(True, nontrivial=len(sampled) >= 2 and scale > 1.0 + 1e-9 or len(sampled) >= 3,
+                   cls=("fly", "nd%d" % nd, "per" if any(spec["per"]) else "open"),
+                   strata=["fly", "fly_nd%d" % nd] + (["fly_low_count_bin"] if low and len(sampled) > low else []) + (["fly_per"] if any(spec["per"]) else []),
+                   case_text=full)
+
+
+PARTS["abf_onthefly"] = {"strategy": spec_abf_fly, "check": check_abf_fly, "examples": {"quick": 1600, "thorough": 20000},
+                         "sample": lambda s: {k: v for k, v in s.items() if k != "steps"}}
+REQUIRED_STRATA = {"all": REQUIRED_STRATA["all"] + ["abf_onthefly:fly_low_count_bin", "abf_onthefly:fly_nd3"]}
